@@ -258,6 +258,44 @@ func (mc *c16Machine) checkConflicts(t *rapid.T, reps int) {
 			}
 		}
 	}
+	// a registered NAME under the member of ANOTHER profile declares nothing
+	// that is registered: rejected, whatever else is in the register
+	type lone struct{ member, val string }
+	lones := []lone{{"psa-profile", P2Name}, {"eat-profile", P1Name}}
+	hasOwnTag := false
+	for _, sh := range mc.reg {
+		hasOwnTag = hasOwnTag || sh == "own-tag"
+	}
+	if hasOwnTag {
+		// (without such a profile "x-profile" is just an unknown member)
+		lones = append(lones, lone{"x-profile", P2Name}, lone{"x-profile", P1Name})
+	}
+	for _, n := range c16DynNames {
+		switch mc.reg[n] {
+		case "ext-p2", "two-embedded-p2", "label-then-p2":
+			lones = append(lones, lone{"psa-profile", n})
+			if hasOwnTag {
+				lones = append(lones, lone{"x-profile", n})
+			}
+		case "ext-p1":
+			lones = append(lones, lone{"eat-profile", n})
+			if hasOwnTag {
+				lones = append(lones, lone{"x-profile", n})
+			}
+		case "own-tag":
+			lones = append(lones, lone{"eat-profile", n}, lone{"psa-profile", n})
+		}
+	}
+	for _, l := range lones {
+		o := modelJN(b2)
+		o.keys, o.vals = append(o.keys, l.member), append(o.vals, jStr(l.val))
+		doc := []byte(o.String())
+		for i := 0; i < 2; i++ {
+			if c, err := psatoken.DecodeClaimsFromJSON(doc); err == nil {
+				mc.fail(t, "a JSON document carrying the registered name %q under %s, the profile member of OTHER profiles, was decoded as %T on call %d instead of being rejected", l.val, l.member, c, i+1)
+			}
+		}
+	}
 	for _, d := range docs {
 		o := modelJN(b2)
 		o.keys = append(o.keys, d.a, d.b)
